@@ -21,11 +21,12 @@ def norm(d):
 # ====================================================================================== C09 pools
 
 class Pools:
-    def __init__(self):
+    def __init__(self, initialise=True):
         self.env = Environment()
         self.rm = ResourceManager()
         self.env.resource_manager = self.rm
-        self.rm.initialize(self.env)
+        if initialise:
+            self.rm.initialize(self.env)
         self.cap = {}
         self.use = {}
         self.res = []      # real ReservedResources
@@ -209,8 +210,21 @@ class Pools:
 
 
 def run_pools(case):
-    p = Pools()
+    pre = case.get('before_start') or []
+    p = Pools(initialise=not pre)
     with installed(Weights('const')):
+        # the model is set up before the simulation starts: pools are declared then, and a request made then is
+        # answered (only requests that take nothing are issued: a request that does not fit, or asks for nothing)
+        for op in pre:
+            if op[0] == 'add':
+                p.step(op)
+            elif op[0] == 'reserve' and all(v >= 0 for v in op[1].values()):
+                pos = norm(op[1])
+                fits = all(n in p.cap and p.cap[n] - p.use[n] >= v for n, v in pos.items())
+                if not pos or not fits:
+                    p.step(op)
+        if pre:
+            p.rm.initialize(p.env)
         for op in case['ops']:
             p.step(op)
     return p
